@@ -148,6 +148,9 @@ pub struct Core {
     pub c03_checks: u64,
     /// free list as walked (raw reads) at the moment a hang was declared
     pub hang_list: Vec<(u32, u32, u32)>,
+    /// unlink CASes that succeeded on a predecessor that was not reachable from the sentinel at
+    /// that moment: (thread, predecessor address, address of the node that was to be unlinked)
+    pub stale_unlinks: Vec<(usize, usize, usize)>,
 }
 
 pub struct Sched {
@@ -233,6 +236,7 @@ impl Core {
             sentinel_addr: 0,
             c03_checks: 0,
             hang_list: vec![],
+            stale_unlinks: vec![],
         }
     }
 
@@ -558,6 +562,10 @@ fn hook_after(e: &Event) {
                 // the CAS that follows a successful mark is the unlink from the predecessor
                 let st = if e.wrote { "unlink-succeeded" } else { "unlink-failed" };
                 c.marks.insert(node, (me, st));
+                if e.wrote && c.sentinel_addr != 0 && addr != c.sentinel_addr && !reachable(&c, addr) {
+                    // every other thread is parked: the raw walk sees the list as it is
+                    c.stale_unlinks.push((me, addr, node));
+                }
                 c.pending_unlink[me] = None;
             }
         }
@@ -575,6 +583,21 @@ fn hook_after(e: &Event) {
     if e.access == Access::FetchSub && e.read == 1 && e.width == 8 {
         c.last_decrement_by = Some(me);
     }
+}
+
+/// Is the node at `target` reachable from the sentinel? (raw reads; called with every thread parked)
+fn reachable(c: &Core, target: usize) -> bool {
+    let mut next = unsafe { *(c.sentinel_addr as *const u64) } as u32;
+    let mut n = 0;
+    while next != u32::MAX && n < 256 && (next as usize) + 8 <= c.cap && next % 8 == 0 {
+        if c.base + next as usize == target {
+            return true;
+        }
+        let w = unsafe { *((c.base + next as usize) as *const u64) };
+        next = w as u32;
+        n += 1;
+    }
+    false
 }
 
 fn access_name(a: Access) -> &'static str {
